@@ -145,7 +145,12 @@ def run_tool(b, tool, exp_abs, root, cfg, timeout=600):
     cmd = [exe, path]
     if not cfg.aslr:
         cmd = ["setarch", platform.machine(), "-R"] + cmd
-    r = subprocess.run(cmd, cwd=wd, env=env, capture_output=True, timeout=timeout)
+    # small inputs take milliseconds; a tool that needs more than the limit is recorded as non-terminating (rc "timeout")
+    limit = timeout if os.path.getsize(exp_abs) > 200_000 else 20
+    try:
+        r = subprocess.run(cmd, cwd=wd, env=env, capture_output=True, timeout=limit)
+    except subprocess.TimeoutExpired:
+        return "timeout", wd, "", path, f"killed after {limit} s without terminating"
     out = r.stdout.decode("latin-1")
     # the working directory and the path by which the file was named legitimately appear in the scanner's stdout
     # and in SCHEMA_TARGETS("<input>") / messages: mask exactly these two strings
@@ -238,7 +243,11 @@ def run_history(b, tool, exp_abs, root, cfg, timeout):
         open(exp_abs, "w", encoding="latin-1").write(text)
         os.utime(exp_abs, (1_577_836_800, 1_577_836_800))
     env = {"PATH": "/usr/bin:/bin", "LD_LIBRARY_PATH": b.lib, "LC_ALL": "C", "HOME": "/nonexistent", "ASAN_OPTIONS": "detect_leaks=0"}
-    r = subprocess.run([G.build_scanner(b), exp_abs], cwd=wd, env=env, capture_output=True, timeout=timeout)
+    try:
+        r = subprocess.run([G.build_scanner(b), exp_abs], cwd=wd, env=env, capture_output=True, timeout=timeout)
+    except subprocess.TimeoutExpired:
+        os.utime(exp_abs, (st.st_atime, st.st_mtime))
+        return "timeout", wd, "", exp_abs, "killed without terminating"
     os.utime(exp_abs, (st.st_atime, st.st_mtime))
     out = r.stdout.decode("latin-1").replace(wd, "<CWD>").replace(exp_abs, "<INPUT>")
     return r.returncode, wd, out, exp_abs, r.stderr.decode("latin-1")[-300:]
@@ -360,6 +369,12 @@ def examine(ctx, b, name, text, exp_src, cfgs, idx, gen_file=None, model_exe=Non
             ctx.count(1, key=(name, tool, cfg.name))
             ctx.hist("runs", f"{tool}/{cfg.name}")
             ctx.hist("exit", f"{tool} rc={rc}")
+            if ref is None and rc == "timeout":
+                # the tool does not terminate on this input under the base configuration: that is a termination defect (C06 /
+                # C18 / C17 findings), not a determinism one; it is recorded and the remaining configurations are skipped
+                ctx.hist("non-terminating", f"{tool} (base configuration)")
+                ctx._nonterm.append({"tool": tool, "input": name, "express_head": (text or f"<shipped {exp_src}>")[:1200]})
+                break
             if ref is None:
                 ref = (rc, snap, out, cfg)
                 if tool == "exp2cxx" and rc == 0 and gen_file is not None and model_exe:
@@ -425,6 +440,7 @@ def alone_clause(ctx, b, name, gen_file, root_idx):
 def run(ctx):
     quick = ctx.tier == "quick"
     ctx._disagree = []
+    ctx._nonterm = []
     ctx.trusted += [
         "tools/extract.d/genbound.py (recognises the two shapes of AGGRprint_bound; anything else = broken tie)",
         "hand-written models lean/StepModel/GenDeterm.lean (AGGRprint_bound, union reads, Ambient) and ExpressHash.lean (hash.c, dict.c); "
@@ -435,7 +451,9 @@ def run(ctx):
         "PARTIAL: non-interference is proved for the modelled data paths only; absence of other ambient dependencies in the ~30k lines of the "
         "generators is established by differential testing, not by proof",
         "the working directory and the path naming the input are masked where they legitimately appear (scanner stdout, SCHEMA_TARGETS(\"<input>\"), tool messages)",
-        "exp2python currently aborts on entities with attributes (defect handled under C18): a consistent abort (same exit status under every configuration) is tolerated and its partial output is not compared",
+        "a tool that fails or does not terminate (20 s limit for inputs < 200 kB) in the SAME way under every configuration is tolerated: that is a termination/robustness "
+        "defect (C06/C18/C17), not a determinism one; such inputs are listed under coverage.non_terminating_inputs and their output is not compared. Known case: exp2python on "
+        "corpus/C12/exp2python-hangs-two-schemas.exp.txt (two schemas, REFERENCE FROM, a renamed simple type); a failure under only SOME configurations is a violation",
     ]
     ctx.cov["partial"].append({"theorem": "C12_bound_legacy_partial / C12_bound_current",
                                "excluded": "under the legacy rule: bounds that are resolved identifiers (constants, attributes, derived attributes) — there the output does depend on an address (C12_bound_legacy_witness)"})
@@ -506,6 +524,7 @@ def run(ctx):
                        "against the base configuration; inputs: minimal non-literal-bound schema, every bound shape, every type kind, generated schemas "
                        "(1-2 schemas per file, with and without non-literal bounds), shipped schemas (quick: small ones)")
     ctx.sample({"configurations": [cfg_dict(c) for c in cfgs]})
+    ctx.cov["non_terminating_inputs"] = ctx._nonterm[:10]
     for name, d in ctx._disagree[:1]:
         ctx.broken.append(("correspondence GenDeterm/ExpressHash model vs exp2cxx output", f"[{name}] {d}"))
 
@@ -514,6 +533,7 @@ def replay(ctx, path):
     d = json.load(open(path))
     r = d.get("replay", d)
     ctx._disagree = []
+    ctx._nonterm = []
     ctx.lean("StepModel.Props.C12", exes=["m_c12"], extractors=["genbound", "scanner", "exphash", "refout"])
     b = ctx.build("plain")
     if "alone" in r:
